@@ -198,6 +198,8 @@ class Option(Evaluatable[A]):
             _ = self.evaluate(options)
         elif self.default is not MISSING:
             self.default.validate(options)
+            if self.domain is not MISSING:
+                self.domain.validate(options)
         else:
             raise KeyNotFoundError(self.key, self)
 
@@ -209,28 +211,33 @@ class Option(Evaluatable[A]):
         if the default value is an Evaluatable, the keys required by the
         Evaluatable are also returned.
         """
+        # The value is checked against the domain, so it depends on the domain's options too.
+        domain = self.domain.keys(options) if self.domain is not MISSING else set()
         if dotted_key_exists(self.key, options):
             value = get_dotted_key(self.key, options)
             return {self.key}.union(
-                *(Template(string).keys(options) for string in _strings(value))
+                domain,
+                *(Template(string).keys(options) for string in _strings(value)),
             )
         elif self.default is not MISSING:
-            return self.default.keys(options)
+            return self.default.keys(options) | domain
         else:
             raise KeyNotFoundError(self.key, self)
 
     def explain(self, options: Optional[Options] = None) -> Set[str]:
         """Returns the keys required by the option."""
         options = options or {}
+        domain = self.domain.explain(options) if self.domain is not MISSING else set()
         if dotted_key_exists(self.key, options):
             value = get_dotted_key(self.key, options)
             return {self.key}.union(
-                *(Template(string).explain(options) for string in _strings(value))
+                domain,
+                *(Template(string).explain(options) for string in _strings(value)),
             )
         elif self.default is not MISSING:
-            return self.default.explain(options)
+            return self.default.explain(options) | domain
         else:
-            return {self.key}
+            return {self.key} | domain
 
     def __repr__(self) -> str:
         return (
